@@ -4,6 +4,7 @@ import (
 	. "github.com/glyphlang/glyph/pkg/ast"
 
 	"fmt"
+	"sort"
 	"strings"
 )
 
@@ -432,8 +433,10 @@ func (i *Interpreter) executeFor(stmt ForStatement, env *Environment) (interface
 			}
 		}
 	} else if obj, ok := iterable.(map[string]interface{}); ok {
-		// Iterate over object/map
-		for key, value := range obj {
+		// Iterate over object/map in sorted key order: Go's map order is
+		// random, and a program's outcome must not depend on it
+		for _, key := range sortedKeys(obj) {
+			value := obj[key]
 			// Create a fresh environment for each iteration
 			loopEnv := NewChildEnvironment(env)
 
@@ -467,6 +470,16 @@ func (i *Interpreter) executeFor(stmt ForStatement, env *Environment) (interface
 	}
 
 	return result, nil
+}
+
+// sortedKeys returns the keys of an object in ascending order
+func sortedKeys(obj map[string]interface{}) []string {
+	keys := make([]string, 0, len(obj))
+	for k := range obj {
+		keys = append(keys, k)
+	}
+	sort.Strings(keys)
+	return keys
 }
 
 // executeSwitch executes a switch statement
